@@ -68,6 +68,8 @@ pub struct Obs {
     pub runs: Vec<Option<Result<Vec<Value>, String>>>,
     pub panics: Vec<PanicInfo>,
     pub out_file: Option<Vec<u8>>,
+    #[serde(default)]
+    pub out_file2: Option<Vec<u8>>,
     pub stats: Stats,
     pub recorded: Recorded,
     pub probes: Vec<sim::ProbeEv>,
@@ -182,6 +184,9 @@ pub fn execute(case: &Case, opts: ExecOpts, mut instr: Box<dyn Instrument>, fata
         obs.panics = take_panics();
         obs.extra = instr.extra();
         obs.out_file = sim::with(|s| s.get_file(&case.world.out_path()).map(|d| d.to_vec()));
+        if case.world.out2.is_some() {
+            obs.out_file2 = sim::with(|s| s.get_file(&case.world.out2_path()).map(|d| d.to_vec()));
+        }
         obs
     });
     let mut obs = match out.result {
